@@ -16,6 +16,20 @@ import (
 func roleBinOp(op token.Token, x, y role) role {
 	return func(v ssa.Value) bool {
 		bo, ok := stripConv(v).(*ssa.BinOp)
+		if ok && op == token.MUL && bo.Op == token.SHL {
+			// x * 2^s written as x << s
+			if s, isK := constInt(bo.Y); isK && s >= 0 && s < 31 {
+				if bt, isB := bo.Type().Underlying().(*types.Basic); isB {
+					switch bt.Kind() {
+					case types.Int8, types.Uint8, types.Int16, types.Uint16:
+						return false
+					}
+				}
+				k := ssa.NewConst(constant.MakeInt64(1<<uint(s)), bo.X.Type())
+				return x(bo.X) && y(k)
+			}
+			return false
+		}
 		if !ok || bo.Op != op {
 			return false
 		}
